@@ -70,6 +70,29 @@ func main() {
 				fmt.Printf("%s %s [%s]%s %s\n", r.Prop, r.ID, r.Template, t, r.Desc)
 			}
 			return 0
+		case "funcs":
+			// the function inventory of the tree (the reference list of transparent-helper inlining)
+			os.Setenv("AMVERIF_NOINLINE", "1")
+			e, err := Load(repo, nil)
+			if err != nil {
+				fmt.Fprintf(os.Stderr, "amverif: load failed: %v\n", err)
+				return 2
+			}
+			set := map[string]bool{}
+			for f := range e.allSSA {
+				if strings.HasPrefix(fnPkgPath(f), Mod) && !(f.Synthetic != "" && f.Origin() == nil) {
+					set[fnName(f)] = true
+				}
+			}
+			var names []string
+			for n := range set {
+				names = append(names, n)
+			}
+			sort.Strings(names)
+			for _, n := range names {
+				fmt.Println(n)
+			}
+			return 0
 		case "check", "all", "explain", "dump":
 		default:
 			usage()
